@@ -123,6 +123,19 @@ theorem C18_last_error_frame (w : World S) (e : Event S) (t : Tid) (hne : e.tid 
     (fun _ _ hf => hf) (fun heq => hne heq)
   simp only [threadView, this.lastErr t rfl, this.tobs t rfl]
 
+/-! ## At the item list regenerated from /repo (no hypothesis left: the side-condition is `decide`d) -/
+
+theorem C18_interleaving_projection_source : ProjectionHolds sourceItems S :=
+  C18_interleaving_projection C18_threads_side_condition
+
+theorem C18_schedule_independent_source : ScheduleIndependent sourceItems S :=
+  C18_schedule_independent C18_threads_side_condition
+
+theorem C18_last_error_thread_local_source (σ : List (Event S)) (t : Tid) :
+    threadView (run sourceItems (World.fresh S) σ) t
+      = threadView (run sourceItems (World.fresh S) (σ.filter (relevantTo t σ))) t :=
+  C18_last_error_thread_local C18_threads_side_condition σ t
+
 /-! ## Non-vacuity on a concrete system -/
 
 namespace Demo
